@@ -34,7 +34,7 @@ RULE = ("battery: batdata generator (C01 domain) x outcome vector over the comma
         "JSON; non-trivial = >=2 set_power calls and at least one non-ok outcome or non-zero excess")
 REQUIRED_BUCKETS = ["battery", "pv", "all-ok", "some-failed", "all-failed", "outcome:range", "outcome:client",
                     "outcome:exc", "outcome:hang", "excess-nonzero", "multi-inverter-group", "followup-request", "pv-concurrent-requests",
-                    "reply-shortly-before-a-fractional-timeout", "unusable-battery-group-requested"]
+                    "reply-shortly-before-a-fractional-timeout", "unusable-battery-group-requested", "calls-answer-after-different-delays"]
 REQUIRED_COUNTERS = ["results_checked", "set_power_calls_observed"]
 ASSUMPTIONS = ["API boundary faked; timeouts in virtual time (5 s)"]
 
@@ -72,6 +72,10 @@ def gen(rng: Any, tier: str, i: int) -> Any:
         case["latency"] = rng.choice([0.0, 0.0, 0.3, 4.9]) if case["timeout"] == 5.0 else \
             rng.choice([0.0, 0.8 * case["timeout"], 0.96 * case["timeout"]])
         case["followup"] = rng.random() < 0.3
+        if rng.random() < 0.5:
+            # calls of one request answer after different delays (an early error next to a slower success)
+            tmo = case["timeout"]
+            case["lat_vec"] = [rng.choice([0.0, 0.0, 0.06 * tmo, 0.2 * tmo, 0.9 * tmo]) for _ in range(n_inv)]
         if len(case["groups"]) >= 2 and rng.random() < 0.3:
             # one requested battery group is unusable (its batteries report SoC NaN): it must not be commanded and
             # must appear in neither component set of the result
@@ -115,9 +119,9 @@ async def _battery_run(case: dict[str, Any], vec: list[str], out: dict[str, Any]
     comps, conns = fakes.battery_topology(groups)
     api = fakes.install_connection_manager(comps, conns)
     inv_ids = [i for _, invs in groups for i in invs]
-    for iid, oc in zip(inv_ids, vec):
+    for j, (iid, oc) in enumerate(zip(inv_ids, vec)):
         api.outcome[iid] = oc
-        api.latency[iid] = case.get("latency", 0.0)
+        api.latency[iid] = case["lat_vec"][j] if case.get("lat_vec") else case.get("latency", 0.0)
     status_ch = Broadcast(name="status")
     res_ch = Broadcast(name="results")
     res_rx = res_ch.new_receiver(limit=100)
@@ -286,6 +290,8 @@ def check(case: dict[str, Any], rec: Any) -> None:
     rec.bucket(case["kind"])
     if case.get("unusable") is not None:
         rec.bucket("unusable-battery-group-requested")
+    if case.get("lat_vec") and len(set(case["lat_vec"])) > 1:
+        rec.bucket("calls-answer-after-different-delays")
     if case.get("timeout", TIMEOUT) != TIMEOUT and case.get("latency", 0.0) > 0:
         rec.bucket("reply-shortly-before-a-fractional-timeout")
     n = sum(len(g["invs"]) for g in case["groups"]) if case["kind"] == "battery" else len(case["invs"])
